@@ -655,6 +655,14 @@ OPTION_SETS = [None,
                {"enc": "no-such-encoding", "force": 1}, {"enc": "no-such-encoding"}]
 
 
+PREFIX_DOCS = [
+    ("#\\#CIF_2.0\ndata_a\n_x 'v'\n_y \"w\"\nloop_\n_p\n_q\n1 'v'\n2 \"w\"\n_l [1 'a' [b]]\n_t {'k':v \"m\":'x'}\n_m '''tq'''\n_n \"\"\"td\"\"\"\nsave_f\n_z\n;text\n;\nsave_\n", [None]),
+    ("data_b\n_x 'it's'\n_y \"w\"\nloop_ _p _q 1 'v' ? \"w\"\nloop_ _r 'z'", [{"prefer_cif2": -1}, {"prefer_cif2": 1}]),
+    ("#\\#CIF_1.1\ndata_c\nsave_f\n_x 'v'\nsave_\n_y\n;\\\nfol\\\nded\n;\n_z [x]\nloop_ _p 1 'v'", [None, {"fold": 1, "prefix": 1}]),
+    ("data_d _t {'a':{'b':[1 2 {'c':'d'}]}} loop_ _p _q 'v' [1] \"w\" {'k':'v'}", [{"prefer_cif2": 1}]),
+]
+
+
 def options_valid(o):
     return not (o and o.get("enc") == "no-such-encoding")
 
@@ -790,6 +798,13 @@ def c03(tier, replay=None):
                 if tier == "quick" and where in ("comment", "text") and hb not in (0xFF, 0x81):
                     continue
                 inputs.append(("hole-%s" % where, doc.replace(b"%s", bytes([hb])), {"enc": enc, "force": 1}, "new", False))
+    # every prefix of compact documents that use each construct once (input that stops anywhere: inside a token, right
+    # after a closing delimiter, between a name and its value, in the middle of a packet, inside a frame)
+    for doc, optsets in PREFIX_DOCS if tier != "quick" else PREFIX_DOCS[:2]:
+        b = doc.encode("utf-8")
+        for o in optsets:
+            for k in range(len(b) + 1):
+                inputs.append(("prefix", b[:k], o, "new" if k % 4 else "populated", False))
     t0 = time.time()
     first, second = contract_run(binary, inputs, tier)
     log('[C03] executions done in %.1fs' % (time.time() - t0))
